@@ -194,8 +194,8 @@ def RKind.required : RKind → Nat
 def RKind.name : RKind → String
   | .linear => "linear" | .quadratic => "quadratic" | .cubic => "cubic" | .lagrange => "lagrange"
 
-/-- State of `self.interpolation_table`: empty, or built with a kind and a fill value
-    (`true` = "extrapolate"); once built it is reused by every later call. -/
+/-- State of `self.interpolation_table`: empty, or built for a kind and a fill value
+    (`true` = "extrapolate") — the `built_for` entry. -/
 abbrev Cache := Option (RKind × Bool)
 
 structure InterpOut where
@@ -284,8 +284,18 @@ def singleCurve (gf : GF) (hEq mn : Rat) (ex : Bool) (cache : Cache) : Py Interp
       .ok { g := c.g, rb := c.rb, d := gf.d, hEq := hEq, warned := ex, single := true, cache := cache }
     else .error .valueError
 
+/-- `if len(table) == 0 or table["built_for"] != (kind, fill_value)`: rebuild for the present call,
+    otherwise reuse what is there. -/
+def tableFor (cache : Cache) (k : RKind) (ex : Bool) : RKind × Bool :=
+  match cache with
+  | some ce => if ce = (k, ex) then ce else (k, ex)
+  | none => (k, ex)
+
 /-- `GFunction.g_function_interpolation(b_over_h, kind)` with the table state `cache` before
-    the call: the table is built if it is empty, otherwise what is there is reused. -/
+    the call.  Since /repo commit 5ab5ff6 the table remembers what it was built for
+    (`built_for = (kind, fill_value)`) and is rebuilt whenever the present call needs another kind
+    or fill mode, so the interpolant used is always the one of the *present* call; `cache` only
+    records the state (and is returned unchanged by the one-curve branch). -/
 def gFunctionInterpolation (gf : GF) (bOverH : Rat) (kind : Kind) (cache : Cache) : Py InterpOut := do
   let hs := gf.curves.map (·.h)
   let hEq ← hEqOf gf.B bOverH hs
@@ -295,27 +305,23 @@ def gFunctionInterpolation (gf : GF) (bOverH : Rat) (kind : Kind) (cache : Cache
   match ← resolveKind kind gf.curves.length with
   | none => singleCurve gf hEq mn ex cache
   | some k =>
-      let t : RKind × Bool := match cache with
-        | some ce => ce
-        | none => (k, ex)
+      let t := tableFor cache k ex
       let (g, rb) ← interpTable gf t.1 t.2 hEq
       pure { g := g, rb := rb, d := gf.d, hEq := hEq, warned := ex, single := false, cache := some t }
 
-/-- State of `self.interpolation_table` after the call, also when the call raises: the table is
-    built (and kept) before anything is evaluated, so an out-of-range `ValueError` still leaves a
-    table behind.  (A build interrupted by the `IndexError` of a short curve leaves a half-built
-    table; that state is not modelled — `none` here, and the harness stops the sequence.) -/
+/-- State of `self.interpolation_table` after the call, also when the call raises after the
+    table was (re)built (an out-of-range `ValueError` can no longer come from a stale table, but the
+    state is still what the next call sees).  A build interrupted by the `IndexError` of a short
+    curve leaves a half-built table; that state is not modelled — the previous state is returned
+    and the harness stops the sequence. -/
 def tableAfter (gf : GF) (bOverH : Rat) (kind : Kind) (cache : Cache) : Cache :=
-  match cache with
-  | some ce => some ce
-  | none =>
-    let hs := gf.curves.map (·.h)
-    match hEqOf gf.B bOverH hs, pyMaxL hs, pyMinL hs, resolveKind kind gf.curves.length with
-    | .ok hEq, .ok mx, .ok mn, .ok (some k) =>
-        match (List.range gf.logTime.length).mapM (column gf.curves) with
-        | .ok _ => some (k, needsExtrap hEq mn mx)
-        | .error _ => none
-    | _, _, _, _ => none
+  let hs := gf.curves.map (·.h)
+  match hEqOf gf.B bOverH hs, pyMaxL hs, pyMinL hs, resolveKind kind gf.curves.length with
+  | .ok hEq, .ok mx, .ok mn, .ok (some k) =>
+      match (List.range gf.logTime.length).mapM (column gf.curves) with
+      | .ok _ => some (k, needsExtrap hEq mn mx)
+      | .error _ => cache
+  | _, _, _, _ => cache
 
 /-! ## 4. Radius correction and `grab_g_function` -/
 
